@@ -41,6 +41,7 @@ var c08Alphabet = []c08Write{
 	{"dropindex", `DROP INDEX IF EXISTS t_v`},
 	{"addcolumn", `ALTER TABLE t ADD COLUMN extra DEFAULT 'd'`},
 	{"recreate", `DROP TABLE t; CREATE TABLE t (id INTEGER PRIMARY KEY, v, pad); INSERT INTO t VALUES (1, 're', 'created'), (2, 're2', 'created2')`},
+	{"recreate-other-definition", `DROP TABLE t; CREATE TABLE t (pad, v COLLATE NOCASE, id INTEGER PRIMARY KEY, n DEFAULT 5); CREATE INDEX t_v ON t (pad DESC); INSERT INTO t (pad, v, id) VALUES ('P', 'x', 3), ('Q', 'X', 1), ('R', 'y', 2)`},
 	{"wr-change", `INSERT OR REPLACE INTO w VALUES ('k' || (SELECT count(*) FROM w), 1); DELETE FROM w WHERE k = 'b'`},
 	{"incr-vacuum", `PRAGMA incremental_vacuum`},
 }
@@ -118,7 +119,7 @@ func runC08(r *ev.Run) {
 	if r.Thorough() {
 		depth = 4
 	}
-	r.Rule = fmt.Sprintf("every sequence of length <=%d over an alphabet of %d write transactions committed by a real SQLite connection in another process (insert, update, delete, bulk insert growing the file past its size at Open, delete+VACUUM shrink, VACUUM to another page size, create/drop table, create/drop index, ALTER TABLE ADD COLUMN, drop+recreate a table under the same name, WITHOUT ROWID change, incremental_vacuum) from 3 base databases (8 pages, auto_vacuum; 300+ pages > the 100 page cache with sequences one step shorter); handles opened at depth 0 and at every later depth; after every step every open handle is read through the high level API and through the low level API inside RLock/RUnlock, twice; oracle: equals SQLite's dump of the file at that moment and a freshly opened handle's dump. non-trivial = sequences containing a write that changes the file", depth, len(c08Alphabet))
+	r.Rule = fmt.Sprintf("every sequence of length <=%d (quick tier: every sequence of length 2, and of length 3 over the 8 operations that move pages, roots or definitions) over an alphabet of %d write transactions committed by a real SQLite connection in another process (insert, update, delete, bulk insert growing the file past its size at Open, delete+VACUUM shrink, VACUUM to another page size, create/drop table, create/drop index, ALTER TABLE ADD COLUMN, drop+recreate a table under the same name, WITHOUT ROWID change, incremental_vacuum) from 3 base databases (8 pages, auto_vacuum; 300+ pages > the 100 page cache with sequences one step shorter); handles opened at depth 0 and at every later depth; after every step every open handle is read through the high level API and through the low level API inside RLock/RUnlock, twice; oracle: equals SQLite's dump of the file at that moment and a freshly opened handle's dump. non-trivial = sequences containing a write that changes the file", depth, len(c08Alphabet))
 	r.Set("depth", depth)
 	dir := ev.TmpDir("c08")
 	defer os.RemoveAll(dir)
@@ -129,8 +130,31 @@ func runC08(r *ev.Run) {
 		seq  []int
 	}
 	var jobs []job
+	// quick tier: full depth-2 enumeration plus depth 3 over the operations that move pages, roots or definitions
+	core := map[string]bool{"update": true, "grow": true, "shrink": true, "repage": true, "dropindex": true, "newindex": true, "recreate": true, "recreate-other-definition": true}
+	allowed := func(cur []int) bool {
+		if r.Thorough() || len(cur) < 3 {
+			return true
+		}
+		for _, o := range cur {
+			if !core[c08Alphabet[o].name] {
+				return false
+			}
+		}
+		return true
+	}
 	var gen func(cur []int)
 	gen = func(cur []int) {
+		if !r.Thorough() && len(cur) == depth-1 {
+			for b := range bases {
+				if b != 1 {
+					jobs = append(jobs, job{b, append([]int{}, cur...)})
+				}
+			}
+		}
+		if !allowed(cur) {
+			return
+		}
 		if len(cur) == depth-1 {
 			// the 300 page base is 40x more expensive to dump: one step less
 			jobs = append(jobs, job{1, append([]int{}, cur...)})
